@@ -36,11 +36,20 @@ def specs(tier):
                            ['open', PR2, 'development/5.1'],
                            ['eval_pr', 1], ['eval_pr', 2]]),
                 spec('c19-q-D3', 'D3', [(PR1, 'development/4.3')],
-                     queue=True, depth=5, decline=False)]
+                     queue=True, depth=5, decline=False,
+                     config={'layout': 'D3', 'queue': True,
+                             'skip_queue': False, 'int_prs': True,
+                             'int_branches': True,
+                             'options': BYPASS_REVIEW + [
+                                 'bypass_build_status']})]
     opts = [[AUTHOR, '@robot create_pull_requests'],
             [AUTHOR, '@robot create_integration_branches']]
     return [spec('c19-noq-D3', 'D3', two, depth=6),
             spec('c19-q-D3', 'D3', two, queue=True, depth=6),
+            spec('c19-q-D3-nobuild', 'D3', two[:1], queue=True, depth=7,
+                 config={'layout': 'D3', 'queue': True, 'skip_queue': False,
+                         'int_prs': True, 'int_branches': True,
+                         'options': BYPASS_REVIEW + ['bypass_build_status']}),
             spec('c19-q-S3', 'S3', [(PR1, 'stabilization/4.3.18'),
                                     (PR2, 'development/4.3')], queue=True,
                  depth=6),
